@@ -76,15 +76,15 @@ func keysOf(m map[string]string) strset {
 
 var (
 	vStems, vBranches, vPairs, vAnimals, vNayin, vXun, vXunKong, vPalace, vPalaceDesc strset
-	vTaiDay, vTaiMonth, vXiu, vLuck, vZheng, vAnimal28, vGong, vShou, vSha             strset
-	vZhiXing, vTianShen, vTianShenType, vChangSheng, vShiShen, vWuXing                 strset
-	vXingZuo, vLiuYao, vYueXiang, vSeason, vWuHou, vHou, vTerms, vWeek, vDigits        strset
-	vMonthCN, vDayCN, vPengZuGan, vPengZuZhi, vFu, vShuJiu                             strset
-	vNS                                                                                 map[string]strset
-	reHm                                                                                = regexp.MustCompile(`^\d\d:\d\d$`)
-	reYmd                                                                               = regexp.MustCompile(`^\d{4}-\d{2}-\d{2}$`)
-	reGan                                                                               = regexp.MustCompile(`Gan(Exact2?|ByLiChun)?$`)
-	reZhi                                                                               = regexp.MustCompile(`Zhi(Exact2?|ByLiChun)?$`)
+	vTaiDay, vTaiMonth, vXiu, vLuck, vZheng, vAnimal28, vGong, vShou, vSha            strset
+	vZhiXing, vTianShen, vTianShenType, vChangSheng, vShiShen, vWuXing                strset
+	vXingZuo, vLiuYao, vYueXiang, vSeason, vWuHou, vHou, vTerms, vWeek, vDigits       strset
+	vMonthCN, vDayCN, vPengZuGan, vPengZuZhi, vFu, vShuJiu                            strset
+	vNS                                                                               map[string]strset
+	reHm                                                                              = regexp.MustCompile(`^\d\d:\d\d$`)
+	reYmd                                                                             = regexp.MustCompile(`^\d{4}-\d{2}-\d{2}$`)
+	reGan                                                                             = regexp.MustCompile(`Gan(Exact2?|ByLiChun)?$`)
+	reZhi                                                                             = regexp.MustCompile(`Zhi(Exact2?|ByLiChun)?$`)
 )
 
 func c08Init(w *W) {
